@@ -24,6 +24,57 @@ def capacities(F):
     return out
 
 
+def check_full_buffer_writes(R, F, cfg, rec):
+    """the SPI transaction bound of send_pixels: every write after which more pixels are taken from the stream carries
+    the whole usable buffer, N x floor(len / N) bytes - so a burst of b bytes needs at most floor(b / usable) + 1
+    transactions. Decided on every path round a loop that contains a write, under the assumption that every pixel
+    pull of that iteration yielded a pixel (otherwise the stream has ended and this was the last write). Needs the
+    relation "staged bytes = N x chunks handed out" (a conserved quantity found by the loop analysis) and the exact
+    count of a ChunksExact iterator."""
+    from values import IntV as _IntV
+    ex = R.executor(F)
+    ln = sym_int("len(*self.buffer)", F.pointer_bits, False)
+    nn = sym_int("const N", F.pointer_bits, False)
+    ex.conserved_coeffs = [nn, -nn]
+    tag = "%s|send_pixels" % cfg
+    try:
+        res = R.run_entry(ex, rec, assume=[ln - nn, nn - 1, Poly.const((1 << 32) - 1) - ln])
+    except E.Undecided as e:
+        R.undecided("C20", "%s|transaction-bound|undecided" % tag, str(e))
+        return
+
+    def is_pull(ev):
+        t = getattr(ev.ret, "ty", None) or {}
+        return TR.classify(ev).cls == "NEXT" and t.get("def") == "core::option::Option" and t.get("args") and t["args"][0].get("k") == "array"
+    n = 0
+    for lid, l in sorted(res.loops.items()):
+        for ci, c in enumerate(l["cont"]):
+            anns_top = TR.annotate(c["trace"], None)
+            anns_all = TR.annotate(c["trace"], res.loops)
+            for a_ in anns_top:
+                if TR.classify(a_["ev"]).cls != "SPI_WRITE":
+                    continue
+                a1 = a_["ev"].args[1]
+                if not (isinstance(a1, Ptr) and a1.meta is not None):
+                    continue
+                f2 = c["state"].facts.copy()
+                feas = all(f2.assume(c_, 1) for c_ in a_["conds"])
+                for b_ in anns_all:
+                    if feas and is_pull(b_["ev"]):
+                        feas = f2.assume(ex.variant_cond(b_["ev"].ret, 1), 1)
+                if not feas:
+                    continue          # the stream ended in this iteration: the last write may be short
+                n += 1
+                usable = ex.binop(c["state"], res.frame, "Div", _IntV(F.pointer_bits, False, p=ln), _IntV(F.pointer_bits, False, p=nn)).poly() * nn
+                d = f2.simplify(a1.meta.poly() - usable)
+                ok = d.const_value() == 0 or (f2.entails_ge0(d, use_eq=True) is not None and f2.entails_ge0(-d, use_eq=True) is not None)
+                R.ob("C20c-full-buffer-before-next-write", "%s|loop@%s|path%d" % (tag, lid.split("@")[1].split("/")[0], ci), ok,
+                     "an SPI write of %r bytes is followed by more pixels although the usable buffer holds N*floor(len/N) bytes: it is not "
+                     "provably a full buffer, so a burst may need more than floor(b/usable)+1 transactions" % (f2.simplify(a1.meta.poly()),),
+                     sample={"loop": lid.split("::")[-1], "write_length": repr(f2.simplify(a1.meta.poly())), "usable": repr(usable)})
+    R.floor(tag + " writes followed by further pulls", n, 1)
+
+
 BOUND = 65534       # in-bounds coordinates: the logical size is at most 65535 (C09)
 
 
@@ -183,7 +234,5 @@ def run(R):
                 fills = [e for c in l["cont"] for e in c["trace"] if isinstance(e, E.Ev) and e.kind == "call" and TR.classify(e).cls == "NEXT"]
                 if fills and writes and not parents and mname == "send_pixels" and False:
                     pass
-            nested = [lid for lid in res.loops if any(any(isinstance(it, E.LoopMark) and it.loop_id == lid for c in pl["cont"] for it in c["trace"]) for pl in res.loops.values())]
             if mname == "send_pixels":
-                R.ob("C20c-staging-loop-present", "%s|%s" % (cfg, mname), len(nested) >= 1,
-                     "send_pixels no longer stages several pixels per SPI write (no inner staging loop)")
+                check_full_buffer_writes(R, F, cfg, rec)
